@@ -112,7 +112,7 @@ theorem nstep_listSymPush (e : List Text) (s : Text) (df : DotFree e)
     simp only [h1, h1', if_false, Bool.false_eq_true]
     by_cases h2 : s = segDotDot
     · subst h2
-      simp only [if_true, beq_self_eq_true, listPop_dotFree df]
+      simp only [if_true, beq_self_eq_true, ite_lone_dot df, listPop_dotFree df]
       refine ⟨?_, dotFree_dropLast df⟩
       cases hr : e.reverse with
       | nil =>
